@@ -312,6 +312,62 @@ func ValueSweeps() []SweepCase {
 			ops := []Op{{Kind: OpAdd, D: 0, M1: 0}, {Kind: OpAdd, D: 1, M1: 1}, {Kind: OpAdd, D: 0, M1: 0}, {Kind: OpSMFAdd}}
 			out = append(out, SweepCase{cfg, al, ops, "meta-type-8bit", fmt.Sprintf("%02X", typ)})
 		}
+		// bursts: n events on one tick behind an event that carries a delta, three
+		// bursts in a row and one at the start of the track (whatever batches
+		// or counts the events of a tick sees every size up to 70 and the sizes
+		// around 128, 256, 1024)
+		{
+			var al []Msg
+			for i := 0; i < 12; i++ {
+				al = append(al, Msg{fmt.Sprintf("m%d", i), []byte{0x90 + byte(i/4), 0x30 + byte(i), 0x40 + byte(i)}})
+			}
+			al = append(al, Msg{"text", smf.MetaText("b")}, Msg{"pc", []byte{0xC1, 0x05}})
+			var sizes []int
+			for n := 2; n <= 70; n++ {
+				sizes = append(sizes, n)
+			}
+			sizes = append(sizes, 127, 128, 129, 130, 255, 256, 257, 1023, 1024, 1025)
+			for _, n := range sizes {
+				for _, lead := range []uint32{0, 5} {
+					var ops []Op
+					k := 0
+					for burst := 0; burst < 3; burst++ {
+						for e := 0; e < n+burst; e++ {
+							d := uint32(0)
+							if e == 0 {
+								d = lead + uint32(burst)*7
+							}
+							ops = append(ops, Op{Kind: OpAdd, D: d, M1: k % len(al)})
+							k++
+						}
+					}
+					ops = append(ops, Op{Kind: OpClose, D: 1}, Op{Kind: OpSMFAdd})
+					out = append(out, SweepCase{cfg, al, ops, "burst", fmt.Sprintf("%d/%d", n, lead)})
+				}
+			}
+		}
+		// deltas and data bytes that spell a chunk type where an event starts
+		// (under running status a note or program change has no byte above 0x7F):
+		// 'MTrk' and 'MThd' at every alignment of two- and one-data-byte messages
+		for _, magic := range []string{"MTrk", "MThd"} {
+			b := []byte(magic)
+			for align := 0; align < 3; align++ {
+				// three-byte messages: the stream delta k v delta k v ... holds the word from position align on
+				x := []byte{0x01, 0x40, 0x41, 0x02, 0x42, 0x43, 0x03}
+				copy(x[align:], b)
+				al := []Msg{{"lead", []byte{0x90, 0x3C, 0x40}}, {"n1", []byte{0x90, x[1], x[2]}}, {"n2", []byte{0x90, x[4], x[5]}}, {"tail", []byte{0x90, 0x3D, 0x41}}}
+				ops := []Op{{Kind: OpAdd, D: 0, M1: 0}, {Kind: OpAdd, D: uint32(x[0]), M1: 1}, {Kind: OpAdd, D: uint32(x[3]), M1: 2}, {Kind: OpAdd, D: uint32(x[6]), M1: 3}, {Kind: OpAdd, D: 1, M1: 0}, {Kind: OpClose, D: 2}, {Kind: OpSMFAdd}}
+				out = append(out, SweepCase{cfg, al, ops, "magic-spelling", fmt.Sprintf("%s/note/%d", magic, align)})
+			}
+			for align := 0; align < 2; align++ {
+				// two-byte messages: delta p delta p delta ...
+				x := []byte{0x01, 0x05, 0x02, 0x06, 0x03, 0x07}
+				copy(x[align:], b)
+				al := []Msg{{"lead", []byte{0xC0, 0x01}}, {"p1", []byte{0xC0, x[1]}}, {"p2", []byte{0xC0, x[3]}}, {"p3", []byte{0xC0, x[5]}}}
+				ops := []Op{{Kind: OpAdd, D: 0, M1: 0}, {Kind: OpAdd, D: uint32(x[0]), M1: 1}, {Kind: OpAdd, D: uint32(x[2]), M1: 2}, {Kind: OpAdd, D: uint32(x[4]), M1: 3}, {Kind: OpAdd, D: 1, M1: 0}, {Kind: OpClose, D: 2}, {Kind: OpSMFAdd}}
+				out = append(out, SweepCase{cfg, al, ops, "magic-spelling", fmt.Sprintf("%s/program/%d", magic, align)})
+			}
+		}
 		// many events in one track (chunk bodies beyond 64 KiB, event counts beyond 65535)
 		for _, ne := range []int{255, 256, 257, 4095, 4096, 65535, 65536, 65537} {
 			al := []Msg{{"a", []byte{0x90, 0x40, 0x41}}, {"b", []byte{0x90, 0x41, 0x00}}, {"t", smf.MetaText("x")}}
